@@ -366,4 +366,129 @@ theorem Lvl.ctx_labels {ty tyP : TypeId} {K L : List Node} {b nd : Nat} {ctx : L
   | down ty pre aC mC ns hp hl =>
     simp [Schema.types, Schema.tyOf, Node.tyOr, Node.marks]
 
+
+/-! ### token windows, the guard unfolded, the gap of the other document -/
+
+theorem gap_window {α} (A0 W B0 : List α) (gf gt : Nat) (h1 : gf ≤ A0.length)
+    (h2 : A0.length + W.length ≤ gt) :
+    ((A0 ++ W ++ B0).drop gf).take (gt - gf) = A0.drop gf ++ W ++ B0.take (gt - A0.length - W.length) := by
+  rw [List.append_assoc, List.drop_append_of_le_length h1, ← List.append_assoc,
+    List.take_append, List.take_of_length_le (by simp; omega)]
+  congr 2
+  simp; omega
+
+theorem take_pre {α} (A0 W B0 : List α) (f : Nat) (h : f ≤ A0.length) :
+    (A0 ++ W ++ B0).take f = A0.take f := by
+  rw [List.append_assoc, List.take_append_of_le_length h]
+
+theorem drop_post {α} (A0 W B0 : List α) (t : Nat) (h : A0.length + W.length ≤ t) :
+    (A0 ++ W ++ B0).drop t = B0.drop (t - A0.length - W.length) := by
+  rw [List.drop_append, List.drop_of_length_le (by simp; omega)]
+  simp; congr 1; omega
+
+/-- the tokens of a level's context around the node `elem tyN aN mN X` -/
+theorem Lvl.toks_node {ty tyA : TypeId} {K : List Node} {b nd : Nat} {ctx : List Node → List Node}
+    {P R : List Node} {tyN : TypeId} {aN : Attrs} {mN : Marks} {kN : List Node}
+    (h : Lvl ty K b nd tyA (P ++ .elem tyN aN mN kN :: R) ctx) :
+    ∃ A0 B0 : List Tok, A0.length = b + fsize P ∧
+      ∀ X, ftoks (ctx (P ++ .elem tyN aN mN X :: R)) = A0 ++ (Tok.op tyN aN mN :: (ftoks X ++ [Tok.cl])) ++ B0 := by
+  obtain ⟨A, D, hA, hX⟩ := h.toks
+  refine ⟨A ++ ftoks P, ftoks R ++ D, by simp [hA, ftoks_length], fun X => ?_⟩
+  rw [hX]
+  simp [ftoks_append]
+/-- the tokens of a level's context, given the tokens of the list around the node whose content the level is -/
+theorem Lvl.toks_window {ty tyP : TypeId} {K L : List Node} {p nd : Nat} {ctx : List Node → List Node}
+    (h : Lvl ty K (p + 1) nd tyP L ctx) (pre post : List Tok) (x y : Tok) (hp : pre.length = p)
+    (hK : ftoks K = pre ++ (x :: (ftoks L ++ (y :: post)))) (X : List Node) :
+    ftoks (ctx X) = pre ++ (x :: (ftoks X ++ (y :: post))) := by
+  obtain ⟨Ab, Db, hAb, htokb⟩ := h.toks
+  have hK2 : ftoks K = Ab ++ ftoks L ++ Db := by rw [← htokb L, h.ctx_self]
+  have e : Ab ++ (ftoks L ++ Db) = (pre ++ [x]) ++ (ftoks L ++ (y :: post)) := by
+    rw [← List.append_assoc Ab, ← hK2, hK]; simp [List.append_assoc]
+  obtain ⟨e1, e2⟩ := List.append_inj e (by simp [hAb, hp])
+  rw [htokb X, e1, List.append_cancel_left e2]
+  simp [List.append_assoc]
+
+
+/-- **the guard, unfolded for the proof**: the step is the replace `replaceKids S tyN kN g1 h1 s1 = .ok kN'` inside the
+    content `kN` of an element node that starts at token `sN` of `K`, inside the window; `ctxi` puts a changed
+    content back -/
+theorem gap_setup (S : Schema) (ty : TypeId) (K Ka : List Node) (gf gt f1 t1 : Nat) (s1 : Slice)
+    (hn : fnorm K = true) (h' : t1 < gt)
+    (hrR : replaceKids S ty K f1 t1 s1 = .ok Ka)
+    (hg : insideGap K gf gt f1 t1 (depthAt K f1 - s1.openStart) = true) :
+    ∃ (sN nd : Nat) (tyN : TypeId) (aN : Attrs) (mN : Marks) (kN kN' : List Node) (g1 h1 : Nat)
+      (ctxi : List Node → List Node) (A0 B0 : List Tok),
+      Lvl ty K (sN + 1) (nd + 1) tyN kN ctxi ∧ replaceKids S tyN kN g1 h1 s1 = .ok kN' ∧ Ka = ctxi kN' ∧
+      f1 = sN + 1 + g1 ∧ t1 = sN + 1 + h1 ∧ g1 ≤ h1 ∧ h1 ≤ fsize kN ∧ gf ≤ sN ∧ sN + (2 + fsize kN) ≤ gt ∧
+      A0.length = sN ∧
+      (∀ X, ftoks (ctxi X) = A0 ++ (Tok.op tyN aN mN :: (ftoks X ++ [Tok.cl])) ++ B0) ∧
+      s1.openStart ≤ depthAt kN g1 ∧ fnorm kN = true := by
+  obtain ⟨hft1, ht1K, hwf1⟩ := replaceKids_guards S ty K f1 t1 s1 Ka hrR
+  obtain ⟨b, nd, tyA, ctx, P, tyN, aN, mN, kN, Rr, g1, h1, hL, q1, q2, r1, r2, r3, r4, r5⟩ :=
+    insideGap_decomp K ty K [] gf gt f1 t1 _ (by simp) hn hft1 h' hg
+  simp only [fsize_nil, Nat.zero_add] at q1 q2 r4 r5
+  have hLvn := hL.norm hn
+  have hP : fnormKids P = true := fnormKids_append_left hLvn
+  have hkN : fnorm kN = true := by
+    have := fnormKids_of_fnorm hLvn
+    rw [fnormKids_append] at this
+    simp only [fnormKids_cons, Bool.and_eq_true, Node.norm_elem] at this
+    exact this.2.1
+  have hLi := hL.into hP
+  have hdep := (hLi.depth g1 (by omega)).1
+  have hso : s1.openStart ≤ depthAt kN g1 := by
+    rw [q1] at r3; omega
+  have hEq := hLi.replaceKids_eq (S := S) s1 g1 h1 r1 r2 hso
+  rw [← q1, ← q2, hrR] at hEq
+  cases hk : replaceKids S tyN kN g1 h1 s1 with
+  | error e => rw [hk] at hEq; simp [Except.map] at hEq
+  | ok kN' =>
+    rw [hk] at hEq
+    simp only [Except.map, Except.ok.injEq] at hEq
+    obtain ⟨A0, B0, hA0, htokX⟩ := Lvl.toks_node hL
+    refine ⟨b + fsize P, nd, tyN, aN, mN, kN, kN', g1, h1, _, A0, B0, ?_, hk, hEq, by omega, by omega, r1, r2,
+      r4, r5, hA0, htokX, hso, hkN⟩
+    rw [Nat.add_assoc]; exact hLi
+
+/-- a list whose tokens show the node `x :: ftoks kN ++ cl :: post` behind `pre` has the nested level `kN` there, and
+    the tokens of its context are what one expects -/
+theorem lvl_window_toks (K : List Node) (ty tyN : TypeId) (aN : Attrs) (mN : Marks) (kN : List Node)
+    (pre post : List Tok) (hn : fnorm K = true) (hkN : fnorm kN = true)
+    (hK : ftoks K = pre ++ (Tok.op tyN aN mN :: (ftoks kN ++ (Tok.cl :: post)))) :
+    ∃ nd ctx, Lvl ty K (pre.length + 1) (nd + 1) tyN kN ctx ∧
+      ∀ X, ftoks (ctx X) = pre ++ (Tok.op tyN aN mN :: (ftoks X ++ (Tok.cl :: post))) := by
+  obtain ⟨nd, ctx, hL⟩ := lvl_of_window K pre.length ty tyN aN mN kN post hn hkN
+    (by rw [hK, List.drop_left'] ; rfl)
+  exact ⟨nd, ctx, hL, Lvl.toks_window hL pre post _ _ rfl hK⟩
+
+/-- **the gap of `da`**: a closed list `G'` whose tokens stand in `Ka` at `gf`, between pair-aligned positions -/
+theorem gap_slice_inner (K Ka : List Node) (gap : Slice) (G' : List Node) (A0 B0 W' : List Tok)
+    (gf gt f1 t1 r : Nat) (S1 : List Tok)
+    (hn : fnorm K = true) (hna : fnorm Ka = true) (hG'n : fnorm G' = true)
+    (hgap : sliceKids K gf gt = .ok gap)
+    (hLKa : ftoks Ka = A0 ++ W' ++ B0)
+    (hGT : ftoks G' = A0.drop gf ++ W' ++ B0.take r) (hr : r ≤ B0.length) (hgf : gf ≤ A0.length)
+    (hda : ftoks Ka = splice (ftoks K) f1 t1 S1) (hft1 : f1 ≤ t1) (ht1 : t1 ≤ fsize K) (h : gf < f1)
+    (h' : t1 < gt) (hgt' : gf + fsize G' = f1 + S1.length + (gt - t1)) :
+    sliceKids Ka gf (f1 + S1.length + (gt - t1)) = .ok ⟨G', 0, 0⟩ := by
+  have hsz : fsize G' = (A0.length - gf) + W'.length + r := by
+    have := congrArg List.length hGT
+    simp only [List.length_append, List.length_drop, List.length_take, ftoks_length] at this
+    omega
+  have hKalen : fsize Ka = A0.length + W'.length + B0.length := by
+    have := congrArg List.length hLKa
+    simp only [List.length_append, ftoks_length] at this
+    omega
+  rw [← hgt']
+  refine slice_window Ka G' gf hna hG'n (by omega) ?_ (fun _ => ⟨?_, ?_⟩)
+  · rw [hGT, hLKa, show fsize G' = gf + fsize G' - gf by omega,
+      gap_window A0 W' B0 gf _ hgf (by omega)]
+    congr 2; omega
+  · obtain ⟨al1, _⟩ := sliceKids_aligned K gf gt gap (by omega) hgap
+    exact aligned_before_splice K Ka _ f1 t1 gf hn hna hda (by rw [ftoks_length]; omega) h al1
+  · obtain ⟨_, al2⟩ := sliceKids_aligned K gf gt gap (by omega) hgap
+    rw [hgt']
+    exact aligned_after_splice K Ka _ f1 t1 gt hn hna hda hft1 (by rw [ftoks_length]; exact ht1) h' al2
+
 end PM
